@@ -79,7 +79,17 @@ def rule_state_before_callout(rep: Report, rule: str, root: Fn) -> int:
                     continue
                 n += 1
                 same_path = w.ctx.branch[:len(c.ctx.branch)] == c.ctx.branch or c.ctx.branch[:len(w.ctx.branch)] == w.ctx.branch
-                late = same_path and w.index > c.index and not w.ctx.loops
+                # a write that is only reached when the guard of the call was false (early return after the call) is
+                # not on the call's path
+                from ..astutil import atoms
+                cg = {(u(e), p) for e, p in c.ctx.guards}
+                neg = set()
+                for e, p in c.ctx.guards:
+                    na = atoms(e, not p)
+                    if len(na) == 1:
+                        neg.add((u(na[0][0]), na[0][1]))
+                exclusive = any((u(e), not p) in cg or (u(e), p) in neg for e, p in w.ctx.guards)
+                late = same_path and not exclusive and w.index > c.index and not w.ctx.loops
                 rep.ob(rule, g, f"{root.qual.split('.')[0]}.{g.name}: `{short(w.node, 40)}` before `{short(c.node, 40)}`", not late,
                        f"{g.qual}: the state `{cn}` that decides whether `{u(c.node)}` happens is updated only after that call. "
                        f"If the subscriber's on_next makes the source emit again synchronously (a feedback loop through a "
